@@ -211,6 +211,47 @@ def grammar_rrel_flags_scenario():
         shutil.rmtree(tmp, ignore_errors=True)
 
 
+def grammar_files_rrel_scenario():
+    """concrete supplement: the grammar is spread over files (main.tx imports mid.tx imports base.tx) and the
+    RREL reference - with the multi-file flag and its own match rule - is written in base.tx: it behaves like the
+    same expression registered as a string, and like the single-file grammar"""
+    import os
+    import shutil
+    import tempfile
+    from textx import metamodel_from_file
+    problems = []
+    for registered in (False, True):
+        ref = "[Item:QN]" if registered else "[Item:QN|+m:groups.items]"
+        files = {'main.tx': "import mid\nModel: imports*=Import groups*=Group wraps*=Wrap;\nImport: 'import' importURI=STRING;\n"
+                            "QN: ID('.'ID)*;",        # another QN of the main grammar (no split): not the one meant in base.tx
+                 'mid.tx': "import base\nGroup: 'group' name=ID '{' items*=Item '}';\nWrap: 'w' uses*=Use;",
+                 'base.tx': "Item: 'item' name=ID;\nUse: 'use' ref=%s;\nQN[split='/']: ID('/'ID)*;" % ref}
+        tmp = tempfile.mkdtemp(prefix='c32g_')
+        try:
+            for fn, t in files.items():
+                with open(os.path.join(tmp, fn), 'w') as f:
+                    f.write(t)
+            with open(os.path.join(tmp, 'lib.m'), 'w') as f:
+                f.write('group g { item l1 }')
+            with open(os.path.join(tmp, 'main.m'), 'w') as f:
+                f.write('import "lib.m" group h { item m1 } w use g/l1 use h/m1')
+            mm = metamodel_from_file(os.path.join(tmp, 'main.tx'))
+            if registered:
+                mm.register_scope_providers({'Use.ref': '+m:groups.items'})
+            what = 'grammar in three files, reference in the transitively imported one, %s' % (
+                'registered string' if registered else 'RREL written in the grammar')
+            try:
+                m = mm.model_from_file(os.path.join(tmp, 'main.m'))
+                got = [u.ref.name for u in m.wraps[0].uses]
+            except Exception as e:  # noqa
+                got = '%s: %s' % (type(e).__name__, str(e).replace(tmp, '')[:80])
+            if got != ['l1', 'm1']:
+                problems.append('%s: uses resolve to %s, expected [l1, m1]' % (what, got))
+        finally:
+            shutil.rmtree(tmp, ignore_errors=True)
+    return problems
+
+
 def explore(item):
     grammar_rrel, = item
     ctx = Ctx(10000, max_paths=100000, free_selectors=True)
@@ -259,6 +300,9 @@ def main():
         chk.violation(pr, {'rrel_forms': True})
     for pr in grammar_rrel_flags_scenario()[:3]:
         chk.violation(pr, {'rrel_flags': True})
+    for pr in grammar_files_rrel_scenario()[:3]:
+        chk.violation(pr, {'rrel_grammar_files': True})
+    paths += 2
     paths += 8
     paths += len(F_EXPRS)
     chk.cov['bounds']['rrel_forms'] = 'grammar form vs registered string for %d expressions with fixed names (quotes, backslashes)' % len(F_EXPRS)
@@ -270,6 +314,9 @@ def main():
 
 
 def replay(data):
+    if data.get('rrel_grammar_files'):
+        pr = grammar_files_rrel_scenario()
+        return bool(pr), pr[:3]
     if data.get('rrel_flags'):
         pr = grammar_rrel_flags_scenario()
         return bool(pr), pr[:3]
